@@ -186,7 +186,7 @@ def job_fn(job):
     case = 0
     for fname, fr in freq_opts(H):
         farr = None if fr is None else np.array(fr)
-        for F in (0.0, 0.25):
+        for F in (0.0, 0.004, 0.25):
             for k in range(0, maxR + 1):
                 for combo in itertools.combinations_with_replacement(range(len(L)), k):
                     case += 1
